@@ -81,6 +81,10 @@ func cmdRound(p *lang.Process) error {
 			return roundWriter(p, roundNearestInteger(value))
 		}
 
+	case int(precision) == 0:
+		// eg 1e-1: a fraction that isn't written as a decimal place
+		return fmt.Errorf("invalid precision '%s': expecting a whole number or a decimal place such as 0.01", params[1])
+
 	default:
 		switch {
 		case roundDown:
